@@ -87,7 +87,7 @@ impl EventEncoder for MetricsEventEncoder {
             let mut metric_unit = None;
             let mut attributes = Vec::new();
 
-            let _ = evt.props().for_each(|k, v| match k.get() {
+            let _ = evt.props().dedup().for_each(|k, v| match k.get() {
                 KEY_METRIC_UNIT => {
                     metric_unit = Some(v);
 
@@ -406,7 +406,10 @@ mod tests {
 
     use prost::Message;
 
-    use crate::data::{generated::metrics::v1 as metrics, util::*};
+    use crate::data::{
+        generated::{metrics::v1 as metrics, util::*},
+        util::*,
+    };
 
     fn double_point(v: impl Into<f64>) -> metrics::number_data_point::Value {
         metrics::number_data_point::Value::AsDouble(v.into())
@@ -685,6 +688,45 @@ mod tests {
                 match de.data {
                     Some(metrics::metric::Data::Gauge(gauge)) => {
                         assert_eq!(10, gauge.data_points.len());
+                    }
+                    other => panic!("unexpected {other:?}"),
+                }
+            },
+        );
+    }
+
+    #[test]
+    fn encode_duplicate_props() {
+        encode_event::<MetricsEventEncoder>(
+            emit::Event::new(
+                emit::path!("test"),
+                emit::Template::literal("test"),
+                emit::Empty,
+                [
+                    ("evt_kind", emit::Value::from("metric")),
+                    ("metric_name", emit::Value::from("test")),
+                    ("metric_agg", emit::Value::from("count")),
+                    ("metric_value", emit::Value::from(43)),
+                    ("metric_unit", emit::Value::from("first")),
+                    ("metric_unit", emit::Value::from("second")),
+                    ("a", emit::Value::from(1)),
+                    ("a", emit::Value::from(2)),
+                ],
+            ),
+            |buf| {
+                let de = metrics::Metric::decode(buf).unwrap();
+
+                assert_eq!("first", de.unit);
+
+                match de.data {
+                    Some(metrics::metric::Data::Sum(sum)) => {
+                        assert_eq!(1, sum.data_points[0].attributes.len());
+
+                        assert_eq!("a", sum.data_points[0].attributes[0].key);
+                        assert_eq!(
+                            Some(int_value(1)),
+                            sum.data_points[0].attributes[0].value
+                        );
                     }
                     other => panic!("unexpected {other:?}"),
                 }
